@@ -141,6 +141,7 @@ func (l *vC14Listener) SendMessage(message *ServerMessage) bool {
 type vC14World struct {
 	td        *TransientData
 	listeners map[int]*vC14Listener
+	lateScale int // attempt number of a real-clock case: lengthens the fuse of `late`
 }
 
 func (w *vC14World) listener(id int) *vC14Listener {
@@ -268,10 +269,17 @@ func (w *vC14World) late(f []string) string {
 	if !ok {
 		return "bad-op"
 	}
+	// (a case that is run again because the machine was too busy for the timing gets a longer fuse; the model
+	// uses the ttl only to tell the timers apart)
+	if ttl *= time.Duration(1 + 4*w.lateScale); ttl > 50*time.Millisecond {
+		ttl = 50 * time.Millisecond
+	}
+	t0 := time.Now()
 	td.SetTTL(vDec(f[1]), vC14Value(f[2]), ttl)
 	td.mu.Lock()
-	if td.data[vDec(f[1])] == nil {
-		// the harness was descheduled for longer than the ttl: not the timing asked for
+	if td.data[vDec(f[1])] == nil || vC14Waiters(&td.mu) >= 1 || time.Since(t0) >= ttl {
+		// the harness was descheduled for longer than the ttl (the callback has run, or is already queued on
+		// the mutex ahead of <a>): not the timing asked for
 		td.mu.Unlock()
 		return "late-failed:callback-ran-early"
 	}
@@ -294,6 +302,14 @@ func (w *vC14World) late(f []string) string {
 			}
 			time.Sleep(100 * time.Microsecond)
 		}
+	}
+	if time.Since(t0) >= ttl {
+		// the timer may have fired before <a> was seen queued: who is first on the mutex is not known
+		td.mu.Unlock()
+		if !aDone {
+			<-done
+		}
+		return "late-failed:callback-ran-early"
 	}
 	want := int32(2)
 	if aDone {
@@ -371,7 +387,7 @@ func vC14ExecReal(c *vCase) {
 	// the choreography of `late` depends on the harness not being descheduled for
 	// longer than the ttl right after SetTTL; if that happens the case is run again
 	for attempt := 0; ; attempt++ {
-		w := &vC14World{td: NewTransientData(), listeners: map[int]*vC14Listener{}}
+		w := &vC14World{td: NewTransientData(), listeners: map[int]*vC14Listener{}, lateScale: attempt}
 		var impl []string
 		failed := false
 		for _, line := range c.Ops {
@@ -380,7 +396,7 @@ func vC14ExecReal(c *vCase) {
 			if len(f) > 0 {
 				if f[0] == "late" {
 					out = w.late(f)
-					if strings.HasPrefix(out, "late-failed:callback-ran-early") {
+					if strings.HasPrefix(out, "late-failed:") {
 						failed = true
 					}
 				} else if f[0] == "conc" && len(f) == 3 {
@@ -399,7 +415,7 @@ func vC14ExecReal(c *vCase) {
 			tm.Stop()
 		}
 		w.td.mu.Unlock()
-		if !failed || attempt >= 4 {
+		if !failed || attempt >= 19 {
 			c.Impl = impl
 			return
 		}
